@@ -268,7 +268,8 @@ def case_declared_dtype(ctx, s: Subject):
         if total is None:
             return
         op = rng.choice(["with_flat", "with_flat_existing", "nest_setitem_other_type", "nest_setitem_chunked", "without",
-                         "frame_setitem", "with_list", "eval_assign", "assign_whole_other_dtype", "assign_whole_frame_loc"])
+                         "frame_setitem", "with_list", "eval_assign", "assign_whole_other_dtype", "assign_whole_frame_loc",
+                         "frame_setitem_scalar", "eval_assign_scalar"])
         prev = cur
         t = rng.choice(gen.TYNAMES)
         cells = [gen.rand_cell(rng, t) for _ in range(total)]
@@ -320,6 +321,27 @@ def case_declared_dtype(ctx, s: Subject):
                     lists.append(cells[k:k + ln])
                     k += ln
                 cur = cur.nest.with_list_field("w", gen.mk_list_array(lists, t))
+            elif op in ("frame_setitem_scalar", "eval_assign_scalar"):
+                # ONE value for every record of an existing field, of ANOTHER kind than the field's element type,
+                # through the frame (the frame's dtypes were looked at before)
+                nf = NestedFrame({"nest": cur})
+                _ = nf.dtypes, nf["nest"].dtype, nf.nested_columns
+                tymap = dict(fields_of(cur.dtype))
+                f = rng.choice(list(cur.nest.fields))
+                scalar = rng.choice([0, 1.5, "s"] if op == "frame_setitem_scalar" else [0, 1.5])
+                hist[-1].update(field=f, field_ty=tymap[f], scalar=repr(scalar))
+                if op == "frame_setitem_scalar":
+                    nf[f"nest.{f}"] = scalar
+                else:
+                    r = nf.eval(f"nest.{f} = {scalar!r}")
+                    check(nf["nest"], "eval_receiver")
+                    nf = r
+                check(nf["nest"], f"{op}_column")
+                if not (nf.dtypes["nest"] == nf["nest"].array.dtype and nf.copy().dtypes["nest"] == nf.dtypes["nest"]):
+                    ctx.case("dtype.declared.frame_dtypes", {**s.desc(), "history": list(hist)},
+                             {"ok": [str(nf.dtypes["nest"]), str(nf["nest"].array.dtype), str(nf.copy().dtypes["nest"])]}, None,
+                             {"ok": "the frame, its column's storage and its copy declare one dtype"}, spec_ok=False)
+                cur = nf["nest"]
             elif op == "frame_setitem":
                 nf = NestedFrame({"nest": cur})
                 nf[f"nest.{rng.choice(list(cur.nest.fields) + ['q'])}"] = arr
